@@ -76,6 +76,9 @@ func c13Check(c *hist.Case, r *evid.Rec) []evid.Disc {
 		if connacks > 1 {
 			ds = append(ds, evid.D("C13-more-than-one-connack", "connection %s#%d received %d CONNACK packets", p.CID, p.ID, connacks))
 		}
+		if p.LeftOpen {
+			ds = append(ds, evid.D("C13-handler-returned-connection-left-open", "connection %s#%d: the broker's handler has returned, but the connection was never closed by the broker", p.CID, p.ID))
+		}
 		open := run.Steps[p.OpenedAt]
 		a := open.A
 		success := p.Connack != nil && p.Connack.ReasonCode == 0
